@@ -39,7 +39,7 @@ Step ==
          [] ev.ev = "enc" -> AllInSupport(ev.items) /\ e' = EncAll(e, ev.items) /\ EncObserved(e', ev) /\ UNCHANGED d
                              /\ (e'.sitN > 0 => PrintT(<<"HELD", e'.sitN>>))             \* coverage: words held back for a carry
          [] ev.ev = "enc_refused" -> ~AllInSupport(ev.items) /\ e' = e /\ EncObserved(e, ev) /\ UNCHANGED d
-         [] ev.ev = "enc_partial" -> AllInSupport(ev.items) /\ ~PM!InSupport(ev.bad[1], ev.bad[2]) /\ e' = EncAll(e, ev.items) /\ EncObserved(e', ev) /\ UNCHANGED d
+         [] ev.ev = "enc_partial" -> AllInSupport(ev.items) /\ ~PM!InSupport(ev.bad[1], ev.bad[2]) /\ (e' = EncAll(e, ev.items) \/ e' = e) /\ EncObserved(e', ev) /\ UNCHANGED d
          [] ev.ev = "clone" -> e' = e /\ EncObserved(e, ev) /\ UNCHANGED d
                                /\ (e.sitN > 0 => PrintT(<<"CLONE-HELD", e.sitN>>))        \* coverage: a clone taken while words are held back
          \* a decoder is created over the sealed words (get_decoder(), or RangeDecoder(get_compressed()))
